@@ -48,11 +48,14 @@ Definition round32 (x : spec_float) : spec_float :=
 Definition is_finite_sf (x : spec_float) : bool :=
   match x with S754_finite _ _ _ | S754_zero _ => true | _ => false end.
 (* ndarray.astype(float32) / np.array(x, dtype=float32): overflow gives +-inf *)
-Definition f64_to_f32 (w : N) : N := b32_of_sf (round32 (sf_of_b64 w)).
+(* [w32] is the identity on every word b32_of_sf produces from a rounded value (mantissa < 2^24, exponent
+   <= 104); it is applied so that "the result is a 32-bit word" holds by construction *)
+Definition w32 (n : N) : N := n mod 4294967296.
+Definition f64_to_f32 (w : N) : N := w32 (b32_of_sf (round32 (sf_of_b64 w))).
 (* struct.pack('<f', x): OverflowError when a finite double rounds to infinity *)
 Definition pack_f32 (w : N) : option N :=
   let x := sf_of_b64 w in let y := round32 x in
-  if is_finite_sf x && negb (is_finite_sf y) then None else Some (b32_of_sf y).
+  if is_finite_sf x && negb (is_finite_sf y) then None else Some (w32 (b32_of_sf y)).
 (* widening is exact *)
 Definition f32_to_f64 (w : N) : N :=
   match sf_of_b32 w with
@@ -80,3 +83,10 @@ Definition sf_floor (x : spec_float) : option Z :=
   end.
 Definition sf_ceil (x : spec_float) : option Z :=
   match sf_floor (SFopp x) with Some z => Some (- z)%Z | None => None end.
+
+Lemma w32_lt n : w32 n < 4294967296.
+Proof. unfold w32. apply N.mod_lt. discriminate. Qed.
+Lemma f64_to_f32_lt w : f64_to_f32 w < 4294967296.
+Proof. apply w32_lt. Qed.
+Lemma pack_f32_lt w v : pack_f32 w = Some v -> v < 4294967296.
+Proof. unfold pack_f32. destruct (_ && _); [discriminate|]. intros [= <-]. apply w32_lt. Qed.
